@@ -16,7 +16,7 @@ import numpy as np
 from simkit import procstate
 from simkit.addr import build_at_released_address
 from simkit import sched as simsched
-from simkit.core import Counter, EventLog, Violation, derive_seed, hash_array, hash_obj
+from simkit.core import library_raised, Counter, EventLog, Violation, derive_seed, hash_array, hash_obj
 from simkit.rngseam import RngSeam
 from simkit.store import SimStore, StoreSeam
 
@@ -1281,7 +1281,19 @@ def _run_ops(ctx, owner, ops):
             continue
         if ctx.sched is not None:
             ctx.log.add("t", owner)
-        fn(ctx, owner, op)
+        had_fault = ctx.store.active()
+        mark = ctx.mark()
+        try:
+            fn(ctx, owner, op)
+        except Exception as exc:  # noqa: BLE001
+            # the harness's own reads of public attributes are library calls too
+            if not library_raised(exc):
+                raise
+            if ctx.fired_since(mark) or had_fault:
+                ctx.log.add(ctx.step, op[0], "attribute-read-raised-under-fault", type(exc).__name__)
+                continue
+            ctx.violate("unexpected-raise", op[0], f"attribute-read:{type(exc).__name__}", f"reading a public attribute of a library object raised {exc!r} during {op[0]} with no fault active; this caller stops here")
+            return
 
 
 class CacheHistoryEngine:
@@ -1398,7 +1410,12 @@ class CacheHistoryEngine:
             else:
                 _run_ops(ctx, "main", spec["ops"])
             ctx.sched = None
-            _final_phase(ctx)
+            try:
+                _final_phase(ctx)
+            except Exception as exc:  # noqa: BLE001
+                if not library_raised(exc):
+                    raise
+                ctx.violate("unexpected-raise", "final", f"attribute-read:{type(exc).__name__}", f"reading a public attribute of a library object raised {exc!r} in the final observation (faults healed)")
         _restart("all")
         res = {
             "digest": ctx.log.digest(),
